@@ -3,7 +3,7 @@ from props import group_engine as E
 
 PROP = "C06"
 LEVEL = "exploration"
-RUNS = {"quick": 700, "thorough": 30000}
+RUNS = {"quick": 1500, "thorough": 30000}
 SHRINK_LISTS = ("faults", "env", "members", "logs", "appends")
 SHRINK_MIN = {"members": 1}
 RUN_TIMEOUT = 300
